@@ -46,14 +46,9 @@ def verifyOpts (p : Policy) : Option String :=
   else if ([p.within] ++ withinKinds.map p.withinOf).any negDur then some "negative-duration"
   else none
 
-/-- `GroupSnapshots` on policy snapshots (same fold as `Snapshots.groupSnapshots`) -/
-def addToGroupsP : List (GroupKey × List PSnap) → GroupKey → PSnap → List (GroupKey × List PSnap)
-  | [], k, sn => [(k, [sn])]
-  | (k', l) :: rest, k, sn =>
-    if k' = k then (k', l ++ [sn]) :: rest else (k', l) :: addToGroupsP rest k sn
-
+/-- `GroupSnapshots` on policy snapshots -/
 def groupP (g : GroupBy) (l : List PSnap) : List (GroupKey × List PSnap) :=
-  l.foldl (fun gs s => addToGroupsP gs (keyOf g s.sn) s) []
+  groupWith (fun s => keyOf g s.sn) l
 
 def dedup : List Nat → List Nat
   | [] => []
